@@ -296,6 +296,8 @@ struct Runner {
                             }
                         }
                         COUNT("erases");
+                        // documented contract of btree_operation_hints: "resets all hints (to be triggered e.g. when deleting nodes)"
+                        hints.clear();
                     }
                     break;
             }
